@@ -451,6 +451,9 @@ class PartialFactory:
         )
         ret.__partial_src__ = mcls  # connect to original model
         ret.__partial_fac__ = cls  # connect to this class
+        # a model refusing unknown fields must do so as partial as well (as all fields
+        # are optional, it would otherwise accept anything, e.g. as member of a Union)
+        ret.__config__.extra = mcls.__config__.extra
         # ----
         return ret, missing_partials
 
